@@ -123,7 +123,7 @@ func writeEvidence(cfg CheckConfig, a *agg, wall time.Duration, violations, plan
 		"wall_s":      wall.Seconds(),
 		"violations":  violations,
 	}
-	dir := filepath.Join(cfg.Root, "evidence")
+	dir := filepath.Join(cfg.Out, "evidence")
 	if err := os.MkdirAll(dir, 0755); err != nil {
 		return err
 	}
